@@ -55,7 +55,10 @@ type AScn struct {
 	DestHop bool `json:"dest_hop,omitempty"`
 	// Twice: once the first document is enriched the resolver recovers (every address now answers with its names) and a
 	// fresh copy of the document is enriched: what succeeded the first time comes from the cache, what failed is asked again
-	Twice      bool            `json:"twice,omitempty"`
+	Twice bool `json:"twice,omitempty"`
+	// Dest2 (index+1 into the address kinds, 0 = none): the document has a second run, without hops, whose destination is
+	// this other address (a round-robin hostname resolved per run)
+	Dest2      int             `json:"dest2,omitempty"`
 	second     *result.Results `json:"-"`
 	firstCalls map[string]int  `json:"-"`
 }
@@ -100,7 +103,11 @@ func runA(sc *AScn, prefix []int, sig []uint32) (*vsched.Exec, *result.Results, 
 			}
 			run.Hops = append(run.Hops, h)
 		}
-		return &result.Results{Protocol: "udp", Traceroute: result.Traceroute{Runs: []result.TracerouteRun{run}}}
+		res := &result.Results{Protocol: "udp", Traceroute: result.Traceroute{Runs: []result.TracerouteRun{run}}}
+		if sc.Dest2 > 0 {
+			res.Traceroute.Runs = append(res.Traceroute.Runs, result.TracerouteRun{Destination: result.TracerouteDestination{IPAddress: addrKinds[sc.Dest2-1].ip(), Port: 80}})
+		}
+		return res
 	}
 	before, doc := mk(), mk()
 	sc.second, sc.firstCalls = nil, nil
@@ -170,6 +177,15 @@ func checkA(sc *AScn, x *vsched.Exec, before, doc *result.Results, calls map[str
 	}
 	run, brun := doc.Traceroute.Runs[0], before.Traceroute.Runs[0]
 	eq := func(a, b []string) bool { return (len(a) == 0 && len(b) == 0) || reflect.DeepEqual(a, b) }
+	if sc.Dest2 > 0 {
+		if len(doc.Traceroute.Runs) != 2 {
+			return "document-altered", "second run lost"
+		}
+		d2 := doc.Traceroute.Runs[1].Destination
+		if !eq(d2.ReverseDns, want(d2.IPAddress)) {
+			return "destination-names", fmt.Sprintf("destination %s of the second run: got %v want %v", d2.IPAddress, d2.ReverseDns, want(d2.IPAddress))
+		}
+	}
 	if !eq(run.Destination.ReverseDns, want(run.Destination.IPAddress)) {
 		return "destination-names", fmt.Sprintf("destination %s (%d-byte form): got %v want %v", run.Destination.IPAddress, len(run.Destination.IPAddress), run.Destination.ReverseDns, want(run.Destination.IPAddress))
 	}
@@ -186,7 +202,11 @@ func checkA(sc *AScn, x *vsched.Exec, before, doc *result.Results, calls map[str
 	for a, n := range calls {
 		b := behaviours[sc.Beh[a]]
 		occ := 0
-		for _, k := range append(append([]int{}, sc.Hops...), sc.Dest) {
+		all := append(append([]int{}, sc.Hops...), sc.Dest)
+		if sc.Dest2 > 0 {
+			all = append(all, sc.Dest2-1)
+		}
+		for _, k := range all {
 			if ip := addrKinds[k].ip(); len(ip) > 0 && ip.String() == a {
 				occ++
 			}
@@ -251,6 +271,20 @@ func genA(tier string) []AScn {
 						out = append(out, s2)
 					}
 				}
+			}
+		}
+	}
+	// two runs whose destinations differ (each run resolves the hostname itself): every run's destination gets its own names
+	for d1 := range addrKinds {
+		for d2 := range addrKinds {
+			for _, hops := range [][]int{nil, {0}, {4, 2}} {
+				sc := AScn{Dest: d1, Dest2: d2 + 1, Hops: hops, Beh: map[string]int{}}
+				for _, k := range append(append([]int{}, hops...), d1, d2) {
+					if ip := addrKinds[k].ip(); len(ip) > 0 {
+						sc.Beh[ip.String()] = 0
+					}
+				}
+				out = append(out, sc)
 			}
 		}
 	}
